@@ -237,7 +237,7 @@ def run_check(prop, tier, obligations, *, level_text="", assumptions=(), wall_bu
     t_start = time.time()
     nproc = int(os.environ.get("VERIF_NPROC", os.cpu_count() or 4))
     if wall_budget_s is None:
-        wall_budget_s = int(os.environ.get("VERIF_WALL_BUDGET_S", 0)) or (900 if tier == "quick" else 2700)
+        wall_budget_s = int(os.environ.get("VERIF_WALL_BUDGET_S", 0)) or (900 if tier == "quick" else 1800)
     for ob in obligations:
         _REGISTRY[ob.name] = ob
     agg = {
